@@ -6,17 +6,23 @@
                          tasks := t~t~…    t := reads(,)>outs(,)
   (keys are zarr store keys: letters, digits, '/', '.', '-', '_' — none of the separators)
 
+  zarr issues the stored-chunk writes of ONE task concurrently, so their order is not determined: write sequences are
+  given as groups  g;g;…  (g := w,w,…  one group per metadata document and one per task); inside a group any order is
+  legal (all of them are schedules in the sense of `ValidSched`).
+
   trace|<arrays>|<ops>
-      -> effective write sequence of the uninterrupted sequential run from the empty store:  D:<doc>,C:<chunk>,…
+      -> grouped effective write sequence of the uninterrupted sequential run from the empty store (D:<doc> / C:<chunk>)
          followed by  wf=<single><topo><exact>  (the hypotheses of the theorems evaluated on this plan)
-  crash|<arrays>|<ops>|<j>
-      -> the store after the first j effective writes, and what compute(resume=True) does from there
+         and  flat=<1 iff the groups flattened are exactly `trace` without the no-op document writes>
+  crash|<arrays>|<ops>|<j>|<docs ,>|<chunks ,>
+      -> prefix=<1 iff the given store is the store after j writes of the sequential run, for some order inside the
+         task that was cut>, and what compute(resume=True) does from the given store
   state|<arrays>|<ops>|<docs ,>|<chunks ,>
-      -> the same from an explicitly given store (chunk values unknown: present chunks are given their final values)
+      -> what compute(resume=True) does from the given store (present chunks are given their final values)
 
   answer of crash/state:
-      docs=<sorted ,> chunks=<sorted ,> outcome=<done|refused:<kind>|createfailed:<kind>> run=<op names ,>
-      writes=<effective writes of the resumed run ,> lost=<number of chunks the create step removes>
+      [prefix=…] outcome=<done|refused:<kind>|createfailed:<kind>> run=<op names ,>
+      writes=<grouped effective writes of the resumed run> lost=<number of chunks the create step removes>
       complete=<arrays with every chunk present ,> refines=<1 iff the resumed store equals the uninterrupted one on every key>
 -/
 import CubedModel.Model.Proto
@@ -83,6 +89,42 @@ def showWrite : Write String Val → String
 def showWrites (ws : List (Write String Val)) : String :=
   if ws.isEmpty then "-" else ",".intercalate (ws.map showWrite)
 
+/-- grouped effective write sequence of the sequential run of `ops` from `s` (mode "a"): one group per document
+actually written, one per task. -/
+def taskGroups (s : Store String Val) : List (Task String Val) → List (List (Write String Val))
+  | [] => []
+  | t :: ts => ((taskWrites s t).map (fun w => Write.chunk w.1 w.2)) :: taskGroups (runTask cfg s t) ts
+
+def groupsOf (s : Store String Val) : List (Op String Val) → List (List (Write String Val))
+  | [] => []
+  | o :: os =>
+    let s1 := createAllA s o.creates
+    ((effective s (docTrace s o.creates)).map (fun w => [w])) ++ taskGroups s1 o.tasks
+      ++ groupsOf (runTasks cfg s1 o.tasks) os
+
+def showGroups (gs : List (List (Write String Val))) : String :=
+  let gs := gs.filter (fun g => !g.isEmpty)
+  if gs.isEmpty then "-" else ";".intercalate (gs.map (fun g => ",".intercalate (g.map showWrite)))
+
+def writeKey : Write String Val → String
+  | .doc d => d
+  | .chunk k _ => k
+
+/-- is (docs, chunks) the store after `j` writes of the grouped sequence, for some order inside the group that is cut? -/
+def isPrefixState (gs : List (List (Write String Val))) (j : Nat) (docs chunks : List String) : Bool :=
+  let have_ := docs ++ chunks
+  let rec go (gs : List (List (Write String Val))) (j : Nat) (acc : List String) (partialOk : Bool) : Bool × List String :=
+    match gs with
+    | [] => (partialOk, acc)
+    | g :: rest =>
+      if j == 0 then (partialOk, acc)
+      else if g.length ≤ j then go rest (j - g.length) (acc ++ g.map writeKey) partialOk
+      else
+        let got := (g.map writeKey).filter have_.contains
+        (partialOk && got.length == j, acc ++ got)
+  let (ok, expected) := go (gs.filter (fun g => !g.isEmpty)) j [] true
+  ok && expected.all have_.contains && have_.all expected.contains
+
 def sortStrs (l : List String) : List String := (l.toArray.qsort (· < ·)).toList
 
 def showStrs (l : List String) : String := if l.isEmpty then "-" else ",".intercalate l
@@ -133,26 +175,30 @@ def describe (arrs : List (Arr String)) (ops : List (Op String Val)) (s : Store 
     | .done s' =>
       let keys := (outKeys ops).eraseDups
       let same := keys.all (fun k => s'.get k == full.get k)
-      ("done", (if same then "1" else "0"), showWrites (effective s (trace cfg s run)), showStrs (run.map Op.name))
+      ("done", (if same then "1" else "0"), showGroups (groupsOf s run), showStrs (run.map Op.name))
   let complete := arrs.filter (fun a => !a.grid.isEmpty && a.grid.all s.present)
-  s!"docs={showStrs (sortStrs s.docs)} chunks={showStrs (presentKeys s)} outcome={oc} run={runNames} writes={writes} lost={createLost s ops} complete={showStrs (complete.map Arr.name)} refines={refines}"
+  s!"outcome={oc} run={runNames} writes={writes} lost={createLost s ops} complete={showStrs (complete.map Arr.name)} refines={refines}"
+
+def mkState (os : List (Op String Val)) (docs chunks : String) : Store String Val :=
+  let full := runOpsA cfg emptyStore os
+  { docs := splitList docs,
+    chunks := (splitList chunks).filterMap (fun k => (full.get k).map (fun v => (k, v))) }
 
 def handle (line : String) : String :=
   match line.splitOn "|" with
   | ["trace", arrays, ops] =>
     let (_, os) := parsePlan arrays ops
-    showWrites (effective emptyStore (trace cfg emptyStore os)) ++ " wf=" ++ wfBits os
-  | ["crash", arrays, ops, j] =>
+    let gs := groupsOf emptyStore os
+    let flat := gs.flatten.map showWrite == (effective emptyStore (trace cfg emptyStore os)).map showWrite
+    showGroups gs ++ " wf=" ++ wfBits os ++ " flat=" ++ (if flat then "1" else "0")
+  | ["crash", arrays, ops, j, docs, chunks] =>
     let (arrs, os) := parsePlan arrays ops
-    let eff := effective emptyStore (trace cfg emptyStore os)
-    describe arrs os (emptyStore.applyAll cfg (eff.take ((parseNat? j).getD 0)))
+    let gs := groupsOf emptyStore os
+    let ok := isPrefixState gs ((parseNat? j).getD 0) (splitList docs) (splitList chunks)
+    "prefix=" ++ (if ok then "1" else "0") ++ " " ++ describe arrs os (mkState os docs chunks)
   | ["state", arrays, ops, docs, chunks] =>
     let (arrs, os) := parsePlan arrays ops
-    let full := runOpsA cfg emptyStore os
-    let s : Store String Val :=
-      { docs := splitList docs,
-        chunks := (splitList chunks).filterMap (fun k => (full.get k).map (fun v => (k, v))) }
-    describe arrs os s
+    describe arrs os (mkState os docs chunks)
   | _ => "bad-request"
 
 def main : IO Unit := runDriver handle
